@@ -386,6 +386,8 @@ pub fn events() -> Vec<Ev> {
         // a name repeated inside the given list (same tag): still one entry of the ordered map
         vec![(true, "y".into()), (true, "x".into()), (true, "y".into()), (true, "x".into())],
         vec![(false, "v".into()), (false, "v".into())],
+        // attribute names that differ only in their namespace prefix
+        vec![(true, "id".into()), (true, "p:id".into()), (true, "q:id".into())],
         // names with a multi-byte character at every byte offset from 1 to 7
         (1..=7).map(|k| (true, format!("{}\u{e9}b", "a".repeat(k)))).collect(),
     ];
